@@ -3,7 +3,7 @@
    Part R1: restore is idempotent; restore keeps every signed commitment
             reproducible from the kept logs (C02). *)
 From Coq Require Import List ZArith Bool Arith Lia.
-From LV Require Import Channel.Model Channel.Proofs Channel.Resync.
+From LV Require Import Channel.Model Channel.Proofs Channel.Resync Channel.Discipline.
 Import ListNotations.
 Local Open Scope nat_scope.
 
@@ -174,6 +174,17 @@ Proof.
   destruct HK as [_ [_ [_ [_ HnH]]]]. rewrite HnH, LT'. reflexivity.
 Qed.
 
+(* actor H: OSign (seen from direction S) *)
+Lemma xsign_H S H xS xH qS qH fS t :
+  InvDir c H S xH xS qH qS -> XDir S H xS xH qS fS -> rTip xH = None ->
+  XDir S H xS (set_rTip xH t) qS fS.
+Proof.
+  intros [j1' an' nd' wa' wb' gt' gl' bl' m1' ph'] [d f] HR.
+  unfold set_rTip. constructor; psimpl; [exact d|].
+  intros k HE HN HC. exfalso.
+  destruct (phase_nrev1 _ _ _ _ _ _ ph' HN) as [k' [R' _]]. congruence.
+Qed.
+
 (* actor S: ORevoke *)
 Lemma xrevoke_S S H xS xH qS qH fS k : H = negb S ->
   InvDir c S H xS xH qS qH -> InvDir c H S xH xS qH qS ->
@@ -233,6 +244,13 @@ Proof.
   - intros k0 HE HN. exfalso. apply phase_nrev_le in ph'. cbn [nrev] in ph'. lia.
 Qed.
 
+(* actor S: receives a revocation (rTip S := None) *)
+Lemma xdrev_S S H xS xH qS fS k :
+  XDir S H xS xH qS fS -> XDir S H (recv_rev xS k) xH qS fS.
+Proof.
+  intros [d f]. unfold recv_rev. constructor; psimpl; [exact d|]. intros; discriminate.
+Qed.
+
 End XOps.
 
 (* ---------- the extended invariant on xsys ---------- *)
@@ -251,8 +269,8 @@ Proof.
   intros HE. inversion HE; subst s0; clear HE. pose proof (inv_init c s H0) as HI.
   split; [exact HI|].
   unfold init_sys, init_party in H0.
-  destruct (init_commit c true); [|discriminate]. destruct (init_commit c (negb true)); [|discriminate].
-  cbn [negb] in H0. destruct (init_commit c false); [|discriminate].
+  cbn [negb] in H0.
+  destruct (init_commit c true); [|discriminate]. destruct (init_commit c false); [|discriminate].
   inversion H0; subst s; clear H0.
   split; constructor; cbn; intros; discriminate.
 Qed.
@@ -284,12 +302,13 @@ Proof.
   destruct r0; try (inversion HS; subst r s'; cbn [snd xs lwrA lwrB]; split; [exact HI|split; assumption]).
   inversion HS; subst r s'; clear HS.
   apply do_sign_ok in HD. destruct HD as [k [HR [HK [-> ->]]]].
-  cbn [snd]. split; [exact HI'|].
-  destruct p; cbn [get set outq set_outq pA pB qAB qBA negb set_lwr xs lwrA lwrB] in *; split.
-  - eapply xsign_S; try eassumption; reflexivity.
-  - xext XB.
-  - xext XA.
-  - eapply xsign_S; try eassumption; reflexivity.
+  cbn [snd].
+  destruct p; cbn [get set outq set_outq pA pB qAB qBA negb set_lwr xs lwrA lwrB] in *;
+    (split; [exact HI'|]); split.
+  - eapply (xsign_S c true false); try eassumption; reflexivity.
+  - eapply (xsign_H c false true); eassumption.
+  - eapply (xsign_H c true false); eassumption.
+  - eapply (xsign_S c false true); try eassumption; reflexivity.
 Qed.
 
 Lemma xinv_revoke c s p : XInv c s -> XInv c (snd (xstep c s (XOp (ORevoke p)))).
@@ -300,8 +319,9 @@ Proof.
   unfold step in HS. unfold do_revoke in HS.
   destruct (lTip (get (xs s) p)) as [k|] eqn:HL.
   2:{ inversion HS; subst r s'. cbn [snd xs lwrA lwrB]. split; [exact HI|split; assumption]. }
-  inversion HS; subst r s'; clear HS. cbn [snd]. split; [exact HI'|].
-  destruct p; cbn [get set outq set_outq pA pB qAB qBA negb set_lwr xs lwrA lwrB] in *; split.
+  inversion HS; subst r s'; clear HS. cbn [snd].
+  destruct p; cbn [get set outq set_outq pA pB qAB qBA negb set_lwr xs lwrA lwrB] in *;
+    (split; [exact HI'|]); split.
   - eapply (xrevoke_S c true false); try eassumption; reflexivity.
   - eapply (xrevoke_H c false true); try eassumption; reflexivity.
   - eapply (xrevoke_H c true false); try eassumption; reflexivity.
@@ -333,11 +353,337 @@ Proof.
     - unfold do_recv_rev in HS. destruct (rTip (get (xs s) p)) as [k|] eqn:HR.
       2:{ inversion HS; subst r s'. split; assumption. }
       inversion HS; subst r s'; clear HS.
-      destruct (lTip (get (xs s) p)) eqn:HL; [discriminate|].
+      assert (HL : lTip (get (xs s) p) = None) by (destruct (lTip (get (xs s) p)); [discriminate|reflexivity]).
       destruct p; cbn [get set outq set_outq pA pB qAB qBA negb] in *; rewrite HQ in *; split.
-      + xext XA.
+      + exact (xdrev_S true false _ _ _ _ k XA).
       + eapply (xdrev_H c false true); try eassumption; reflexivity.
       + eapply (xdrev_H c true false); try eassumption; reflexivity.
-      + xext XB. }
+      + exact (xdrev_S false true _ _ _ _ k XB). }
   destruct r; cbn [snd xs lwrA lwrB]; (split; [exact HI'|exact HX]).
 Qed.
+
+(* ------------------------------------------------------------------ *)
+(* Part R3: list lemmas for truncated logs and retransmission queues   *)
+
+Lemma add_pos_from_firstn l : forall i pos a n,
+  add_pos_from l i pos = Some a -> a < pos + n -> add_pos_from (firstn n l) i pos = Some a.
+Proof.
+  induction l as [|u l IH]; intros i pos a n HP HL; cbn in HP; [discriminate|].
+  destruct n as [|n].
+  { exfalso. destruct u; try (apply add_pos_from_bound in HP; lia).
+    destruct i; [inversion HP; lia|apply add_pos_from_bound in HP; lia]. }
+  cbn [firstn add_pos_from].
+  destruct u; try (apply IH; [exact HP|lia]).
+  destruct i; [exact HP|apply IH; [exact HP|lia]].
+Qed.
+
+Lemma add_pos_firstn l i a n : add_pos l i = Some a -> a < n -> add_pos (firstn n l) i = Some a.
+Proof. intros HP HL. apply add_pos_from_firstn; [exact HP|lia]. Qed.
+
+Lemma lookup_adds_from_inv l : forall n j pos i',
+  lookup_add (adds_from (firstn n l) j) i' <> None ->
+  exists i a, i' = j + i /\ add_pos_from l i pos = Some a /\ a < pos + n.
+Proof.
+  induction l as [|u l IH]; intros n j pos i' HL.
+  { exfalso. apply HL. destruct n; reflexivity. }
+  destruct n as [|n]; [exfalso; apply HL; reflexivity|].
+  cbn [firstn adds_from] in HL.
+  destruct u.
+  - cbn [lookup_add a_idx] in HL. destruct (Nat.eqb_spec i' j) as [E|E].
+    + exists 0, pos. cbn. repeat split; lia.
+    + destruct (IH n (Datatypes.S j) (Datatypes.S pos) i' HL) as [i [a [E1 [E2 E3]]]].
+      exists (Datatypes.S i), a. cbn [add_pos_from]. repeat split; try assumption; lia.
+  - destruct (IH n j (Datatypes.S pos) i' HL) as [i [a [E1 [E2 E3]]]].
+    exists i, a. cbn [add_pos_from]. repeat split; try assumption; lia.
+  - destruct (IH n j (Datatypes.S pos) i' HL) as [i [a [E1 [E2 E3]]]].
+    exists i, a. cbn [add_pos_from]. repeat split; try assumption; lia.
+  - destruct (IH n j (Datatypes.S pos) i' HL) as [i [a [E1 [E2 E3]]]].
+    exists i, a. cbn [add_pos_from]. repeat split; try assumption; lia.
+Qed.
+
+Lemma lookup_adds_firstn_inv l n i :
+  lookup_add (adds_of (firstn n l)) i <> None -> exists a, add_pos l i = Some a /\ a < n.
+Proof.
+  intros HL. destruct (lookup_adds_from_inv l n 0 0 i HL) as [i0 [a [E1 [E2 E3]]]].
+  cbn in E1. subst i0. exists a. split; [exact E2|lia].
+Qed.
+
+Lemma removed_amounts_some_inv adds rems r :
+  removed_amounts adds rems = Some r -> forall p, In p (map fst rems) -> lookup_add adds p <> None.
+Proof.
+  revert r. induction rems as [|[q s] rems IH]; intros r HR p HI; [contradiction|].
+  cbn [removed_amounts] in HR. cbn [map fst In] in HI.
+  destruct (lookup_add adds q) eqn:HL; [|discriminate].
+  destruct (removed_amounts adds rems) as [r'|] eqn:HR'; [|discriminate].
+  destruct HI as [<-|HI]; [congruence|]. eapply IH; [reflexivity|exact HI].
+Qed.
+
+(* a well-formed cut contains the parent add of each included removal *)
+Lemma commit_wf_parents lA lB nA nB : commit_wf lA lB nA nB = true ->
+  (forall i, In i (parents (firstn nA lA)) -> exists a, add_pos lB i = Some a /\ a < nB) /\
+  (forall i, In i (parents (firstn nB lB)) -> exists a, add_pos lA i = Some a /\ a < nA).
+Proof.
+  unfold commit_wf. cbv zeta. rewrite !andb_true_iff. intros [[_ H1] H2].
+  destruct (removed_amounts (adds_of (firstn nA lA)) (removes_of (firstn nB lB))) as [r1|] eqn:R1;
+    [|discriminate].
+  destruct (removed_amounts (adds_of (firstn nB lB)) (removes_of (firstn nA lA))) as [r2|] eqn:R2;
+    [|discriminate].
+  split; intros i HI; apply lookup_adds_firstn_inv.
+  - eapply removed_amounts_some_inv; [exact R2|exact HI].
+  - eapply removed_amounts_some_inv; [exact R1|exact HI].
+Qed.
+
+Lemma good_parents c S H lS lH k : H = negb S -> good c S H lS lH k ->
+  forall i, In i (parents (firstn (n_of S k) lS)) -> exists a, add_pos lH i = Some a /\ a < n_of H k.
+Proof.
+  intros -> [HK _]. apply commit_of_inv in HK. destruct HK as [gA [gB [HW _]]].
+  apply commit_wf_parents in HW. destruct HW as [W1 W2].
+  destruct S; cbn [sel negb n_of] in *; assumption.
+Qed.
+
+Lemma good_firstn c S H lS lH k b1 b2 : H = negb S -> good c S H lS lH k ->
+  n_of S k <= b1 -> n_of H k <= b2 -> good c S H (firstn b1 lS) (firstn b2 lH) k.
+Proof.
+  intros -> [HK [HS HH]] B1 B2. split; [|rewrite !firstn_length; lia].
+  rewrite <- HK.
+  destruct S; cbn [sel negb n_of] in *; apply commit_of_ext; rewrite firstn_firstn;
+    rewrite Nat.min_l by lia; reflexivity.
+Qed.
+
+Lemma firstn_skipn_split {A} a b (l : list A) : a <= b ->
+  firstn a l ++ skipn a (firstn b l) = firstn b l.
+Proof.
+  intros HL. rewrite <- (firstn_skipn a (firstn b l)) at 2.
+  rewrite firstn_firstn, Nat.min_l by lia. reflexivity.
+Qed.
+
+Lemma upds_in_map l : upds_in (map MUpd l) = l.
+Proof. induction l as [|u l IH]; cbn; [reflexivity|]. rewrite IH. reflexivity. Qed.
+Lemma nsig_map l : nsig (map MUpd l) = 0.
+Proof. induction l as [|u l IH]; cbn; [reflexivity|exact IH]. Qed.
+Lemma nrev_map l : nrev (map MUpd l) = 0.
+Proof. induction l as [|u l IH]; cbn; [reflexivity|exact IH]. Qed.
+Lemma nupd_map l : nupd (map MUpd l) = length l.
+Proof. unfold nupd. rewrite upds_in_map. reflexivity. Qed.
+
+(* ------------------------------------------------------------------ *)
+(* Part R4: the state after "lose the queues, restore both, retransmit" *)
+
+Definition c1b (xS xH : party) : bool := (c_h (lTail xH) =? c_h (rTail xS))%Z.
+(* S owes H a revocation: H's view of S's revoked-into height is one behind *)
+Definition owes_rev (xS xH : party) : bool := (c_h (rTail xH) + 1 =? c_h (lTail xS))%Z.
+Definition sigpart (S : bool) (xS xH : party) : list msg :=
+  match rTip xS with
+  | Some k => if c1b xS xH then diff_updates S xS ++ [MSig k] else []
+  | None => []
+  end.
+Definition revpart (xS xH : party) : list msg := if owes_rev xS xH then [MRev] else [].
+Definition mid_q (fS : bool) (sp rp : list msg) : list msg := if fS then sp ++ rp else rp ++ sp.
+
+Section Mid.
+Variable c : cfg.
+
+Inductive cls (S H : bool) (xS xH : party) : Prop :=
+| Cl0 : rTip xS = None -> lTail xH = rTail xS -> cls S H xS xH
+| Cl1 k : rTip xS = Some k -> kgood c S H xS xH k -> lTail xH = rTail xS -> cls S H xS xH
+| Cl3 k : rTip xS = Some k -> kgood c S H xS xH k -> lTail xH = k ->
+          n_of S k <= length (peer xH) -> cls S H xS xH.
+
+Lemma phase_cls S H xS xH qS qH : phase c S H xS xH qS qH -> cls S H xS xH.
+Proof.
+  intros ph. ph_cases ph.
+  - apply Cl0; congruence.
+  - eapply Cl1; eauto.
+  - eapply Cl1; eauto.
+  - eapply Cl3; eauto.
+Qed.
+
+(* whether S has an undelivered revocation, in terms of heights *)
+Lemma phase_owes_rev S H xS xH qS qH : phase c S H xS xH qS qH ->
+  (nrev qH = 0 /\ owes_rev xH xS = false) \/ (nrev qH = 1 /\ owes_rev xH xS = true).
+Proof.
+  intros ph. unfold owes_rev. ph_cases ph.
+  - left. split; [exact NR|]. rewrite E. apply Z.eqb_neq. lia.
+  - left. split; [exact NR|]. rewrite E. apply Z.eqb_neq. lia.
+  - left. split; [exact NR|]. rewrite E. apply Z.eqb_neq. lia.
+  - right. split; [exact NR|]. destruct G as [_ [_ [Hh _]]]. rewrite LT, Hh. apply Z.eqb_refl.
+Qed.
+
+(* which of H's counts an unacked signature used *)
+Lemma cl1_K S H xS xH qS qH fS k :
+  phase c S H xS xH qS qH -> phase c H S xH xS qH qS -> XDir S H xS xH qS fS ->
+  rTip xS = Some k -> lTail xH = rTail xS ->
+  n_of H k = n_of H (if Nat.eqb (nrev qS) 0 then rTail xH
+                     else if fS then rTail xH else tip_of (rTail xH) (rTip xH)).
+Proof.
+  intros ph ph' [d f] HR HT.
+  destruct (Nat.eqb_spec (nrev qS) 0) as [E0|E0].
+  - ph_cases ph; try congruence; assert (k = kp) by congruence; subst k.
+    + destruct SA as [pre [post [EQ [N1 [N2 [C1 C2]]]]]].
+      rewrite EQ in E0. apply nrev_app_0 in E0. destruct E0 as [E0 _].
+      unfold ev_rtail in C2. rewrite E0 in C2. exact C2.
+    + apply d. exact L.
+    + exfalso. destruct G as [_ [_ [Hh _]]]. rewrite LT in HT. rewrite HT in Hh. lia.
+  - apply f; [exact HR| |rewrite HT; reflexivity].
+    pose proof (phase_nrev_le c _ _ _ _ _ _ ph'). lia.
+Qed.
+
+End Mid.
+
+Section Mid2.
+Variable c : cfg.
+
+Lemma rt_good S H xS xH qS qH : phase c S H xS xH qS qH ->
+  good c S H (own xS) (own xH) (rTail xS) ->
+  good c S H (own xS) (own xH) (tip_of (rTail xS) (rTip xS)).
+Proof.
+  intros ph gt. ph_cases ph; rewrite R; cbn [tip_of]; try exact gt; destruct G as [G _]; exact G.
+Qed.
+
+Lemma parents_skipn_in n l i : In i (parents (skipn n l)) -> In i (parents l).
+Proof.
+  intros HI. rewrite <- (firstn_skipn n l), parents_app. apply in_or_app. right. exact HI.
+Qed.
+
+Lemma upto_rev_map_app l r : upto_rev (map MUpd l ++ r) = l ++ upto_rev r.
+Proof. rewrite upto_rev_app_norev by apply nrev_map. rewrite upds_in_map. reflexivity. Qed.
+
+Lemma mid_q_nil fS rp : mid_q fS [] rp = rp.
+Proof. unfold mid_q. destruct fS; [reflexivity|apply app_nil_r]. Qed.
+
+Lemma mid_dir S H xS xH qS qH fS qH' : H = negb S ->
+  InvDir c S H xS xH qS qH -> InvDir c H S xH xS qH qS -> XDir S H xS xH qS fS ->
+  nrev qH' = nrev (revpart (restore H xH) (restore S xS)) ->
+  InvDir c S H (restore S xS) (restore H xH)
+    (mid_q fS (sigpart S (restore S xS) (restore H xH)) (revpart (restore S xS) (restore H xH))) qH'.
+Proof.
+  intros HSH I1 I2 X HN'.
+  pose proof (negb_swap _ _ HSH) as HHS.
+  pose proof (ltail_own_bound c _ _ _ _ _ _ I2 I1) as HLB.
+  destruct I1 as [j1 an nd wa wb gt gl bl m1 ph]. destruct I2 as [j1' an' nd' wa' wb' gt' gl' bl' m1' ph'].
+  destruct (phase_m2 c _ _ _ _ _ _ ph) as [A1 A2].
+  destruct (phase_m2 c _ _ _ _ _ _ ph') as [A1' A2'].
+  pose proof (phase_cls c _ _ _ _ _ _ ph) as CL.
+  pose proof (phase_owes_rev c _ _ _ _ _ _ ph') as OR.
+  pose proof (rt_good _ _ _ _ _ _ ph gt) as GRT.
+  pose proof (rt_good _ _ _ _ _ _ ph' gt') as GRT'.
+  destruct GRT as [_ [BS _]]. destruct GRT' as [_ [BH _]].
+  destruct m1 as [m1a m1b].
+  unfold sigpart, revpart, c1b, diff_updates, owes_rev in *. unfold restore in *. psimpl. cbn [own peer lTail lTip rTail rTip] in HN'.
+  fold (owes_rev xH xS) in HN'. fold (owes_rev xS xH). fold (owes_rev xS xH) in OR.
+  rewrite <- HHS. rewrite <- HSH.
+  set (bS := n_of S (tip_of (rTail xS) (rTip xS))) in *.
+  set (bH := n_of H (tip_of (rTail xH) (rTip xH))) in *.
+  set (aS := n_of S (lTail xH)) in *.
+  set (aH := n_of H (lTail xS)) in *.
+  assert (NRP : nsig (if owes_rev xS xH then [MRev] else []) = 0 /\
+                upds_in (if owes_rev xS xH then [MRev] else []) = [] /\
+                upto_rev (if owes_rev xS xH then [MRev] else []) = [])
+    by (destruct (owes_rev xS xH); repeat split).
+  destruct NRP as [NRP1 [NRP2 NRP3]].
+  assert (PF : firstn aS (peer xH) = firstn aS (own xS)) by (eapply firstn_prefix; [exact j1|exact bl]).
+  match goal with |- InvDir _ _ _ _ _ (mid_q fS ?sp ?rp) _ => set (Q := mid_q fS sp rp) end.
+  (* the three facts that depend on the class of the direction *)
+  assert (QF : firstn aS (peer xH) ++ upds_in Q = firstn bS (own xS) /\
+               (forall i, In i (parents (upto_rev Q)) ->
+                  exists a, add_pos (own xH) i = Some a /\ a < n_of H (rTail xH)) /\
+               phase c S H
+                 (mkParty (firstn bS (own xS)) (firstn aH (peer xS)) (lTail xS) None (rTail xS) (rTip xS))
+                 (mkParty (firstn bH (own xH)) (firstn aS (peer xH)) (lTail xH) None (rTail xH) (rTip xH))
+                 Q qH').
+  { destruct CL as [R T|k R G T|k R G T B].
+    - (* nothing unacked *)
+      subst Q. rewrite R. rewrite mid_q_nil. rewrite NRP2, NRP3, app_nil_r.
+      assert (aS = bS) by (subst aS bS; rewrite R, T; reflexivity).
+      split; [congruence|]. split; [intros i HI; destruct HI|].
+      apply Ph0; psimpl; try assumption; try reflexivity; [|congruence].
+      rewrite HN'. unfold owes_rev. rewrite T.
+      destruct (Z.eqb_spec (c_h (rTail xS) + 1) (c_h (rTail xS))); [lia|reflexivity].
+    - (* an unacked signature the holder has not revoked into *)
+      destruct G as [G [Ho [Hh Hm]]].
+      assert (EB : n_of S k = bS) by (subst bS; rewrite R; reflexivity).
+      assert (EA : n_of S (rTail xS) = aS) by (subst aS; rewrite T; reflexivity).
+      pose proof (cl1_K c _ _ _ _ _ _ _ _ ph ph' X R T) as K.
+      subst Q. rewrite R, T, Z.eqb_refl, EB, EA.
+      rewrite firstn_firstn, Nat.min_id.
+      set (dl := skipn aS (firstn bS (own xS))).
+      assert (DL : length dl = bS - aS) by (subst dl; rewrite skipn_length, firstn_length; lia).
+      assert (GP : forall i, In i (parents dl) ->
+                exists a, add_pos (own xH) i = Some a /\ a < n_of H k).
+      { intros i HI. subst dl. apply parents_skipn_in in HI. rewrite <- EB in HI.
+        eapply good_parents; [exact HSH|exact G|exact HI]. }
+      assert (NQ' : nrev qH' = 0).
+      { rewrite HN'. unfold owes_rev. rewrite T.
+        destruct (Z.eqb_spec (c_h (rTail xS) + 1) (c_h (rTail xS))); [lia|reflexivity]. }
+      assert (KG : kgood c S H
+                 (mkParty (firstn bS (own xS)) (firstn aH (peer xS)) (lTail xS) None (rTail xS) (rTip xS))
+                 (mkParty (firstn bH (own xH)) (firstn aS (peer xH)) (lTail xH) None (rTail xH) (rTip xH)) k).
+      { split; [|split; [exact Ho|split; [exact Hh|exact Hm]]]. psimpl.
+        apply good_firstn; try assumption; [lia|]. specialize (m1b k R). lia. }
+      split; [|split].
+      + unfold mid_q. destruct fS; rewrite !upds_in_app, upds_in_map, NRP2; cbn [upds_in];
+          rewrite ?app_nil_r; cbn [app]; rewrite PF; apply firstn_skipn_split; exact A1.
+      + intros i HI. unfold mid_q in HI. destruct fS.
+        * rewrite <- app_assoc, upto_rev_map_app in HI. cbn [app upto_rev] in HI.
+          rewrite NRP3, app_nil_r in HI.
+          destruct (GP i HI) as [a [HP HA]]. exists a. split; [exact HP|].
+          destruct (Nat.eqb (nrev qS) 0); lia.
+        * destruct OR as [[N0 O0]|[N1 O1]].
+          -- rewrite O0 in HI. cbn [app] in HI. rewrite upto_rev_map_app in HI.
+             cbn [upto_rev] in HI. rewrite app_nil_r in HI.
+             destruct (GP i HI) as [a [HP HA]]. exists a. split; [exact HP|].
+             rewrite N0 in K. cbn [Nat.eqb] in K. lia.
+          -- rewrite O1 in HI. cbn [app upto_rev] in HI. destruct HI.
+      + eapply Ph1; psimpl; try eassumption; try reflexivity.
+        unfold mid_q. destruct fS.
+        * exists (map MUpd dl), (if owes_rev xS xH then [MRev] else []).
+          rewrite <- app_assoc. cbn [app]. split; [reflexivity|].
+          split; [apply nsig_map|]. split; [exact NRP1|]. psimpl.
+          split; [rewrite firstn_length, nupd_map; lia|].
+          unfold ev_rtail. rewrite nrev_map. cbn [Nat.eqb]. psimpl.
+          destruct (Nat.eqb (nrev qS) 0); exact K.
+        * destruct OR as [[N0 O0]|[N1 O1]].
+          -- rewrite O0. cbn [app]. exists (map MUpd dl), [].
+             split; [reflexivity|]. split; [apply nsig_map|]. split; [reflexivity|]. psimpl.
+             split; [rewrite firstn_length, nupd_map; lia|].
+             unfold ev_rtail. rewrite nrev_map. cbn [Nat.eqb]. psimpl.
+             rewrite N0 in K. exact K.
+          -- rewrite O1. exists (MRev :: map MUpd dl), [].
+             split; [reflexivity|]. split; [cbn [nsig]; apply nsig_map|]. split; [reflexivity|]. psimpl.
+             split; [rewrite firstn_length; unfold nupd; cbn [upds_in]; rewrite upds_in_map; lia|].
+             unfold ev_rtail. cbn [nrev]. rewrite nrev_map. cbn [Nat.eqb]. psimpl.
+             rewrite N1 in K. exact K.
+    - (* the holder revoked into k; its revocation was lost *)
+      destruct G as [G [Ho [Hh Hm]]].
+      assert (HC : (c_h (lTail xH) =? c_h (rTail xS))%Z = false).
+      { rewrite T, Hh. apply Z.eqb_neq. lia. }
+      assert (aS = bS) by (subst aS bS; rewrite R, T; reflexivity).
+      subst Q. rewrite R, HC. rewrite mid_q_nil. rewrite NRP2, NRP3, app_nil_r.
+      split; [congruence|]. split; [intros i HI; destruct HI|].
+      eapply Ph3; psimpl; try eassumption; try reflexivity.
+      + split; [|split; [exact Ho|split; [exact Hh|exact Hm]]]. psimpl.
+        apply good_firstn; try assumption; [subst bS; rewrite R; cbn [tip_of]; lia|].
+        specialize (m1b k R). lia.
+      + rewrite HN'. unfold owes_rev. rewrite T, Hh, Z.eqb_refl. reflexivity.
+      + rewrite firstn_length. subst aS. rewrite T. lia. }
+  destruct QF as [QJ [QW QP]].
+  constructor; psimpl.
+  - exact QJ.
+  - apply amounts_nonneg_firstn. exact an.
+  - apply nodup_parents_firstn. exact nd.
+  - intros i HI. apply parents_firstn_in in HI. destruct (wa i HI) as [a [HP HA]].
+    exists a. split; [|exact HA]. apply add_pos_firstn; [exact HP|]. fold aH in HA. lia.
+  - intros i HI. rewrite parents_app in HI. apply in_app_or in HI.
+    assert (HX : exists a, add_pos (own xH) i = Some a /\ a < n_of H (rTail xH)).
+    { destruct HI as [HI|HI]; [|apply QW; exact HI].
+      apply parents_firstn_in in HI. apply wb. rewrite parents_app. apply in_or_app. left. exact HI. }
+    destruct HX as [a [HP HA]]. exists a. split; [|exact HA].
+    apply add_pos_firstn; [exact HP|lia].
+  - apply good_firstn; try assumption. lia.
+  - apply good_firstn; try assumption.
+  - rewrite firstn_length. fold aS. lia.
+  - split; assumption.
+  - exact QP.
+Qed.
+
+End Mid2.
